@@ -256,6 +256,15 @@ pub type Readers<'w, 's> = (
 pub type Access<'w, 's> =
     (ReactiveMut<'w, 's, Rc<0>>, ReactiveMut<'w, 's, Rc<1>>, ReactResMut<'w, Rr<0>>, ReactResMut<'w, Rr<1>>);
 
+/// Handles to the world reactors (absent in the bodies of entity world reactors, whose `EntityLocal` parameter already
+/// borrows the reactor resource).
+pub type WrAccess<'w> = (
+    Reactor<'w, crate::exec::Wr<0>>,
+    Reactor<'w, crate::exec::Wr<1>>,
+    EntityReactor<'w, crate::exec::Ew<0>>,
+    EntityReactor<'w, crate::exec::Ew<1>>,
+);
+
 /// Everything the readers of a run returned.
 #[derive(Clone, Debug, Default, PartialEq, Eq, Serialize)]
 pub struct Obs {
